@@ -157,9 +157,18 @@ def extract_region(it, repo, outdir):
         raise InjectError('%s does not exist' % it['file'])
     lines = open(path, encoding='latin-1').read().split('\n')
     b = [n for n, l in enumerate(lines) if it['begin'] in l]
+    if 'scope' in it:
+        # a unique line that opens the enclosing construct; the begin anchor is the first match after it
+        sc = [n for n, l in enumerate(lines) if it['scope'] in l]
+        if len(sc) != 1:
+            raise InjectError('region %s: scope anchor matches %d lines' % (it['region'], len(sc)))
+        b = [n for n in b if n > sc[0]][:1]
     if len(b) != 1:
         raise InjectError('region %s: begin anchor matches %d lines' % (it['region'], len(b)))
     e_all = [n for n, l in enumerate(lines) if it['end'] in l]
+    if it.get('end_first_after'):
+        # the end anchor is the FIRST line after begin that contains the text (it need not be unique in the file)
+        e_all = [n for n in e_all if n > b[0]][:1]
     if len(e_all) != 1 or e_all[0] <= b[0]:
         raise InjectError('region %s: end anchor matches %d lines (or precedes begin)' % (it['region'], len(e_all)))
     lo = b[0] if it.get('include_begin') else b[0] + 1
